@@ -34,7 +34,7 @@ OUT OF OR IN CONNECTION WITH THE SOFTWARE OR THE USE OR OTHER DEALINGS IN THE
 SOFTWARE.
 '''
 
-from math import sqrt, isclose
+from math import sqrt, isclose, isfinite
 
 from .plot_utils_import import from_dependency_import
 cspsubdiv = from_dependency_import('ink_extensions.cspsubdiv')
@@ -335,6 +335,9 @@ def parseLengthWithUnits(string_to_parse):
     try:
         value = float(string)
     except ValueError:
+        return None, None
+    # float() also reads 'inf', 'nan', '1_000' and non-ASCII digits; none of these is an SVG number
+    if not isfinite(value) or '_' in string or any(c.isdecimal() and c not in '0123456789' for c in string):
         return None, None
 
     return value, units
